@@ -85,7 +85,8 @@ def session_table(fb):
     f = fb.find("repl::run_with_interpreter")
     vi = dict((n, i) for i, n in fb.variants("values::Value"))
     rle = None
-    lines = ["(define x", " 1)", "x", "", "(car", "5)", "y", "(display 1)"]
+    # (the last form has a line that ends in a blank which is part of a token: the character literal `#\ `)
+    lines = ["(define x", " 1)", "x", "", "(car", "5)", "y", "(display 1)", "(list #\\ ", "  #\\a)"]
     PAY, ERR = V("value-of-x"), V("error")
     VAL = Enum(vi["Symbol"], [PAY])
     VAL.name, VAL.adt = "Symbol", "values::Value"
@@ -169,12 +170,13 @@ def rule_session(ctx, rule_buffer, rule_print, rule_one=None):
         ctx.undecided(rule_buffer, "session", "cannot follow run_with_interpreter on the scripted session (%s)" % d["stuck"], where_of(f))
         return 0
     evals = [e[1] for e in d["events"] if e[0] == "eval"]
-    want = ["(define x\n 1)", "x", "(car\n5)", "y", "(display 1)"]
+    want = ["(define x\n 1)", "x", "(car\n5)", "y", "(display 1)", "(list #\\ \n  #\\a)"]
     ctx.inst(rule_buffer, "session/submissions", {"submitted": evals})
     ctx.oblige(evals == want)
     if evals != want:
-        ctx.report(rule_buffer, "session/submissions", "the lines `(define x`, ` 1)`, `x`, ``, `(car`, `5)` (an error), `y`, `(display 1)` are submitted as "
-                   "%s; expected %s (lines joined by a newline until complete; the buffer cleared after every submission, failed or not)" % (
+        ctx.report(rule_buffer, "session/submissions", "the lines `(define x`, ` 1)`, `x`, ``, `(car`, `5)` (an error), `y`, `(display 1)`, `(list #\\ ` "
+                   "(ending in a blank), `  #\\a)` are submitted as %s; expected %s (the lines exactly as typed, joined by a newline until "
+                   "complete; the buffer cleared after every submission, failed or not)" % (
                        evals, want), where_of(f))
     if rule_one:
         same = all(e[2] for e in d["events"] if e[0] == "eval")
